@@ -11,6 +11,7 @@ code points (empty field = empty string); optional strings use `~` for `None`:
     create-token|PROJECT|KEY?    create-oidc|PROJECT|UID|EMAIL|TOK
     select|NAME   select-any     delete|NAME   set-project|NAME|PROJECT
     update-key|NAME|KEY?|KEYID?  destroy      reset (harness only: back to a fresh database)
+    refresh|PID|UID|TOK
 
 Output: `RESULT;cur=URL:ra;ptr=NAME?;active=PID?;pick=NAME@URL?;envs=…;profiles=…` with strings
 as `.`-joined code points, tables sorted (environments by url, profiles by pid). -/
@@ -44,6 +45,7 @@ def parseOp? (line : String) : Option Op :=
   | ["update-key", n, k, kid] => do some (.updateKey (← parseStr? n) (← parseOpt? k) (← parseOpt? kid))
   | ["destroy"] => some .destroy
   | ["probe", ra, mv] => do some (.probe (← parseBool? ra) (← parseOpt? mv))
+  | ["refresh", pid, uid, tok] => do some (.refresh (← parseNat? pid) (← parseStr? uid) (← parseStr? tok))
   | _ => none
 
 def showRes : Res → String
